@@ -216,6 +216,25 @@ CLAIMED = {
         'compare() with the model\'s own files must report nothing.',
         'Trusted: TLC; openpyxl as the independent reader; the generator.',
         'DESIGN.md 4/C16'),
+    'C17': (
+        'TLC model checking of Lifecycle.tla with two objects (Independent, '
+        'HistoryFree over all interleavings up to length 3) + replay of '
+        'sampled interleavings on real models and their deepcopy / dill '
+        'copies, every live object observed after every step against Sem',
+        'Lifecycle.tla with Objects = {model, copy} is checked exhaustively '
+        'for interleavings up to length 3 and sampled by simulation to length '
+        '6 (calculate with override sets on either object, compile, compiled '
+        'call, to_dict, write, deepcopy, dill). Each interleaving is replayed '
+        'on a real model built from files or from a dictionary (workbooks '
+        'include array formulas whose constant value is padded with #N/A); '
+        'after every step every live object is recalculated with fixed probe '
+        'inputs and every cell compared with Workbook!Sem(W, ov): a copy is '
+        'equivalent to its original, and nothing done to one changes the '
+        'other. A compiled function, its deepcopy and its dill round trip '
+        'must all return Sem after the original has been called with other '
+        'arguments.',
+        'Trusted: TLC; generator; dill and copy from the standard environment.',
+        'DESIGN.md 4/C17'),
     'C18': (
         'TLC model checking of ShuntingYard.tla/Grammar.tla (every token '
         'sequence ends acc or rej; acc only if the grammar accepts) and '
